@@ -1575,3 +1575,44 @@ package decimal128
 //@ assert before "i := 0": forall k in 0..7: sig[k] == (sig128[1] / pow2(56 - 8 * k)) % 256 && sig[k + 8] == (sig128[0] / pow2(56 - 8 * k)) % 256
 //@ assert before "i := 0"#1: u128(sig128) == sum k in 0..15: sig[k] * pow2(8 * (15 - k))
 //@ props C14 C20
+
+//@ func uint256.lsh
+//@ mode bv
+//@ returns (r)
+//@ ensures o <= 64 && n[3] < pow2(64 - o) ==> u256(r) == shl(u256(n), o)
+//@ props C14 C20
+
+// Compose (C14): for coefficients of at most 32 bytes (longer ones go through math/big and are outside
+// this contract). be(sig, n) is the big-endian value of the first n bytes. V is the magnitude
+// coefficient x 10^exp; success means the result denotes it exactly (never rounded).
+//@ func Decimal.Compose
+//@ uses rssteps=1,4,19 rsmono=0,1,36
+//@ returns (err)
+//@ logical V real
+//@ requires len(sig) <= 32 && V >= 0 && rs(V, exp + 6176) == be(sig, len(sig)) && exp <= 2147483600
+//@ ensures form == 1 ==> tag(err) == 0 && isinf(*d) && sign(*d) == neg && lo(*d) == 0
+//@ ensures form == 2 ==> tag(err) == 0 && isnan(*d) && !sign(*d) && lo(*d) == payloadOpCompose
+//@ ensures form > 2 ==> tag(err) != 0 && *d == old(*d)
+//@ ensures form == 0 && tag(err) != 0 ==> *d == old(*d)
+//@ ensures form == 0 && tag(err) == 0 ==> !special(*d) && sign(*d) == neg && rs(V, bexp(*d)) == coef(*d)
+//@ loop 1: invariant 0 <= i && i <= l && l == len(sig) && form == 0 && exp == old(exp) && *d == old(*d) && be(sig, len(sig)) == be(sig, i, l - i)
+//@ loop 1: decreases l - i
+//@ assert before "if len(sig) > 32 {": len(sig) >= 1 && len(sig) <= 32 && rs(V, exp + 6176) == be(sig, len(sig)) && be(sig, 0) == 0 && be(sig, 1) == sig[0]
+//@ loop 3: invariant 1 <= i && i <= l && l == len(sig) && 17 <= l && l <= 32 && form == 0 && exp == old(exp) && *d == old(*d)
+//@ loop 3: invariant u256(sig256) == be(sig, i) && rs(V, exp + 6176) == be(sig, len(sig))
+//@ loop 3: decreases l - i
+//@ loop 4: invariant rs(V, exp + 6176) == u256(sig256) && form == 0 && *d == old(*d) && exp <= 6111
+//@ loop 4: decreases u256(sig256)
+//@ loop 5: invariant rs(V, exp + 6176) == u192(sig192) && form == 0 && *d == old(*d) && exp <= 6111
+//@ loop 5: decreases u192(sig192)
+//@ loop 6: invariant 1 <= i && i <= len(sig) && len(sig) <= 16 && form == 0 && exp == old(exp) && *d == old(*d)
+//@ loop 6: invariant u128(sig128) == be(sig, i) && rs(V, exp + 6176) == be(sig, len(sig))
+//@ loop 6: decreases len(sig) - i
+//@ loop 7: invariant rs(V, exp + 6176) == u128(sig128) && form == 0 && *d == old(*d) && (exp <= 6111 || exp == old(exp))
+//@ loop 7: decreases u128(sig128)
+//@ loop 8: invariant rs(V, exp + 6176) == u128(sig128) && u128(sig128) <= M && form == 0 && *d == old(*d) && exp >= 0 - 6176 - 35
+//@ loop 8: decreases 0 - exp
+//@ loop 9: invariant rs(V, exp + 6176) == u128(sig128) && u128(sig128) <= M && form == 0 && *d == old(*d) && exp >= 0 - 6176
+//@ loop 9: decreases exp
+//@ waive cover at "for bigsig.BitLen() > 32*8 {": coefficients longer than 32 bytes are outside this contract (requires len(sig) <= 32)
+//@ props C14 C20
